@@ -302,6 +302,13 @@ func KitchenSink(variant int) *Schema {
 		"ptags": col(setOf(bt("string"), 0, -1)),
 		"pmap":  col(mapOf(bt("string"), bt("integer"))),
 	}}
+	// a table with scalar columns only (no set, map or optional column at all)
+	s.Tables["Flat"] = &Table{IsRoot: true, Indexes: [][]string{{"fname"}}, Columns: map[string]*Column{
+		"fname": col(scalar(bt("string"))),
+		"fval":  col(scalar(bt("integer"))),
+		"fflag": col(scalar(bt("boolean"))),
+		"freal": col(scalar(bt("real"))),
+	}}
 	// columns with the same name in several tables (a monitor may select them in one table and not in another)
 	for _, tn := range []string{"Root", "Child", "Grand", "Item", "Plain"} {
 		s.Tables[tn].Columns["note"] = col(optional(bt("string")))
